@@ -215,9 +215,10 @@ func c35MalformedFields(variant string, xsid string, id uint32) [][2]string {
 // ---------------------------------------------------------------- generation
 
 type c35Gen struct {
-	rt *rapid.T
-	m  *c35Model
-	n  int
+	rt     *rapid.T
+	m      *c35Model
+	n      int
+	s2cCap int // server->client socket buffer of this case
 }
 
 func (g *c35Gen) lbl(s string) string { g.n++; return fmt.Sprintf("%s%d", s, g.n) }
@@ -294,6 +295,17 @@ func (g *c35Gen) legal() *c35Step {
 	if len(pending) > 0 {
 		opts = append(opts, opt{"finish", 4})
 	}
+	// streams the server itself reset: a crossing client RST_STREAM is legal and must be ignored (5.1)
+	srvReset := m.pick(func(s *c35Stream) bool { return s.state == mClosed && s.srvRST && !s.cliRST })
+	if len(srvReset) > 0 {
+		opts = append(opts, opt{"rst-crossing", 2})
+	}
+	// handler completion racing with a client RST_STREAM while the response is stuck in a small,
+	// unread socket buffer
+	racers := m.pick(func(s *c35Stream) bool { return s.handler && s.state != mClosed })
+	if len(racers) > 0 && g.s2cCap <= 1024 {
+		opts = append(opts, opt{"finish-race", 4})
+	}
 	opts = append(opts, opt{"ping", 1}, opt{"settings", 1}, opt{"winupd-conn", 1})
 	if len(m.order) > 0 {
 		opts = append(opts, opt{"priority", 1})
@@ -330,9 +342,18 @@ func (g *c35Gen) legal() *c35Step {
 	case "rst":
 		st.SID = rapid.SampledFrom(live).Draw(g.rt, g.lbl("sid"))
 		st.N = rapid.SampledFrom([]int{0x8, 0x0, 0x2}).Draw(g.rt, g.lbl("code"))
+	case "rst-crossing":
+		st.SID = rapid.SampledFrom(srvReset).Draw(g.rt, g.lbl("sid"))
+		st.N = 0x8
+	case "finish-race":
+		st.SID = rapid.SampledFrom(racers).Draw(g.rt, g.lbl("sid"))
+		// 4061..4096: HEADERS + one DATA|END_STREAM frame that overflows the 4 KiB write buffer;
+		// larger bodies: several DATA frames
+		st.N = rapid.SampledFrom([]int{4096, 4096, 4090, 4070, 6000, 9000, 300}).Draw(g.rt, g.lbl("body"))
+		st.Variant = rapid.SampledFrom([]string{"rst", "rst", "rst-then-ping"}).Draw(g.rt, g.lbl("race"))
 	case "finish":
 		st.SID = rapid.SampledFrom(pending).Draw(g.rt, g.lbl("sid"))
-		st.N = rapid.SampledFrom([]int{0, 0, 5, 300}).Draw(g.rt, g.lbl("body"))
+		st.N = rapid.SampledFrom([]int{0, 0, 5, 300, 4096, 5000}).Draw(g.rt, g.lbl("body"))
 		if m.streams[st.SID].state != mOpen {
 			st.ReadBody = rapid.Bool().Draw(g.rt, g.lbl("rb"))
 		}
@@ -448,7 +469,11 @@ func (g *c35Gen) illegal(kind string) c35Step {
 		st.EndStream = rapid.Bool().Draw(g.rt, g.lbl("es"))
 		st.Fields = validFields(st.SID, st.XSID)
 	case "X-headers-closed":
-		st.SID = rapid.SampledFrom(m.pick(func(s *c35Stream) bool { return s.state == mClosed })).Draw(g.rt, g.lbl("sid"))
+		cl := m.pick(func(s *c35Stream) bool { return s.state == mClosed })
+		st.SID = rapid.SampledFrom(cl).Draw(g.rt, g.lbl("sid"))
+		if rapid.Bool().Draw(g.rt, g.lbl("latest")) {
+			st.SID = cl[len(cl)-1]
+		}
 		st.XSID = fmt.Sprintf("again-%d", st.SID)
 		st.EndStream = rapid.Bool().Draw(g.rt, g.lbl("es"))
 		if rapid.Bool().Draw(g.rt, g.lbl("asTrailers")) {
@@ -482,6 +507,9 @@ func (g *c35Gen) illegal(kind string) c35Step {
 		st.Fields = [][2]string{{rapid.SampledFrom([]string{":path", ":method", ":status"}).Draw(g.rt, g.lbl("ps")), "/x"}, {"x-trailer", "t"}}
 	case "X-malformed-req":
 		st.SID = m.nextID()
+		if rapid.IntRange(0, 2).Draw(g.rt, g.lbl("skip")) == 0 {
+			st.SID += 2
+		}
 		st.XSID = fmt.Sprintf("bad-%d", st.SID)
 		st.Variant = rapid.SampledFrom(c35MalformedKind).Draw(g.rt, g.lbl("variant"))
 		st.EndStream = rapid.IntRange(0, 2).Draw(g.rt, g.lbl("es")) != 0
@@ -516,7 +544,7 @@ type c35Run struct {
 	alive   bool   // the connection is expected to be usable
 	ended   string // "", "goaway", "closed"
 	failed  bool
-	forbid  []string // x-sid values that must never reach the handler
+	forbid  []c35Forbid // requests that must never reach the handler
 }
 
 func (x *c35Run) witness() map[string]any {
@@ -575,7 +603,7 @@ func (x *c35Run) send(st c35Step) {
 		c.write(headersFrames(st.SID, hpackLiteral(st.Fields), st.EndStream, st.Prio, pad, st.Cut))
 	case "data", "X-data-hcr", "X-data-closed", "X-data-idle":
 		c.write(dataFrame(st.SID, make([]byte, st.N), st.EndStream, pad))
-	case "rst":
+	case "rst", "rst-crossing":
 		c.write(rawFrame(fRST, 0, st.SID, u32(uint32(st.N))))
 	case "ping":
 	case "settings":
@@ -600,6 +628,47 @@ func (x *c35Run) send(st c35Step) {
 	case "priority":
 		c.write(rawFrame(fPriority, 0, st.SID, st.Prio.bytes()))
 	}
+}
+
+type c35Forbid struct {
+	xsid string
+	key  string // finding-key suffix: kind[/variant][/context]
+}
+
+// c35MalformedClass groups the malformed-request variants by the RFC section that makes
+// them malformed: the header list itself (8.1.2, 8.1.2.1) or the request it describes
+// (8.1.2.2, 8.1.2.3).
+func c35MalformedClass(variant string) string {
+	switch variant {
+	case "pseudo-after-regular", "dup-method", "dup-path", "unknown-pseudo", "status-pseudo", "uppercase-name":
+		return "fieldlist"
+	}
+	return "request"
+}
+
+// keyFor is the finding-key suffix of an illegal step: kind, variant, and for steps that
+// re-use stream ids the way the referenced stream ended.
+func (x *c35Run) keyFor(st c35Step) string {
+	key := st.Kind
+	switch st.Kind {
+	case "X-malformed-req":
+		key += "/" + st.Variant
+	case "X-headers-hcr":
+		if st.EndStream {
+			key += "/end-stream"
+		} else {
+			key += "/no-end-stream"
+		}
+	case "X-headers-closed", "X-data-closed":
+		if t := x.m.streams[st.SID]; t != nil && t.endedBy != "" {
+			key += "/after-" + t.endedBy
+		}
+	case "X-lower-idle-id":
+		if t := x.m.streams[x.m.maxID]; t != nil && strings.HasPrefix(t.endedBy, "rejected") {
+			key += "/after-" + t.endedBy
+		}
+	}
+	return key
 }
 
 // reaction summarises what the server sent since frame index mark.
@@ -680,13 +749,17 @@ func (x *c35Run) exec(st c35Step) bool {
 		}
 		// under an async schedule the number of active streams is not known to the model
 		if exp.noDeliver && (x.sync || st.Kind != "X-over-limit") {
-			x.forbid = append(x.forbid, st.XSID)
+			x.forbid = append(x.forbid, c35Forbid{st.XSID, x.keyFor(st)})
 		}
 		x.classes["illegal:"+st.Kind] = true
 	}
+	illegalKey := x.keyFor(st)
 	mark := x.r.cli.nframes()
 	if st.Kind == "finish" {
 		return x.execFinish(st, target, mark)
+	}
+	if st.Kind == "finish-race" {
+		return x.execFinishRace(st, target, mark)
 	}
 	x.send(st)
 	// ---- model update for legal steps
@@ -701,15 +774,24 @@ func (x *c35Run) exec(st c35Step) bool {
 		target.state = mHCR
 		target.trailers = true
 	case "rst":
+		if target.state != mClosed {
+			target.endedBy = "client-rst"
+		}
 		target.state = mClosed
 		target.cliRST = true
+	case "rst-crossing":
+		target.cliRST = true
 	case "X-malformed-req", "X-over-limit":
-		for id := m.nextID(); id < st.SID; id += 2 {
-			m.skipped = append(m.skipped, id)
+		// the id is used up whatever the server answers (5.1.1); the stream is closed once the
+		// server has rejected it (srvRST is set below when a RST_STREAM is seen)
+		rej := m.add(st.SID, true)
+		rej.state = mClosed
+		rej.handler = false
+		rej.endedBy = "rejected-" + c35MalformedClass(st.Variant)
+		if st.Kind == "X-over-limit" {
+			rej.endedBy = "rejected-over-limit"
 		}
-		if st.SID > m.maxID {
-			m.maxID = st.SID
-		}
+		target = rej
 	}
 	if !x.sync {
 		return true
@@ -722,7 +804,11 @@ func (x *c35Run) exec(st c35Step) bool {
 		if b != bAcked {
 			x.noteEnded(b)
 			re := x.reaction(mark, st.SID)
-			x.fail("legal-rejected/"+st.Kind, "connection ended (%v, goaway %v) after legal step %s on stream %d", b, re.goaway, st.Kind, st.SID)
+			key := "legal-rejected/" + st.Kind
+			if st.Kind == "rst-crossing" && target != nil && target.endedBy != "" {
+				key += "/after-" + target.endedBy
+			}
+			x.fail(key, "connection ended (%v, goaway %v) after legal step %s on stream %d", b, re.goaway, st.Kind, st.SID)
 			return false
 		}
 		re := x.reaction(mark, st.SID)
@@ -817,27 +903,20 @@ func (x *c35Run) exec(st c35Step) bool {
 			return false
 		}
 		if target != nil {
+			if target.state != mClosed {
+				target.endedBy = "server-rst"
+			}
 			target.state = mClosed
 			target.srvRST = true
 		}
-	case exp.ignoreOK:
+	case exp.ignoreOK && !(exp.noDeliver && x.deliveredSoon(st.XSID)):
 		x.classes["outcome:ignored"] = true
 	default:
 		detail := ""
 		if exp.noDeliver && x.r.h.count(st.XSID) > 0 {
 			detail = " (the request was delivered to the handler)"
 		}
-		key := "illegal-accepted/" + st.Kind
-		if st.Kind == "X-malformed-req" {
-			key += "/" + st.Variant
-		}
-		if st.Kind == "X-headers-hcr" {
-			if st.EndStream {
-				key += "/end-stream"
-			} else {
-				key += "/no-end-stream"
-			}
-		}
+		key := "illegal-accepted/" + illegalKey
 		x.fail(key, "%s on stream %d was silently accepted%s: no RST_STREAM, no GOAWAY, connection answers PING; rule: %s", st.Kind, st.SID, detail, exp.rule)
 		return false
 	}
@@ -929,6 +1008,95 @@ func (x *c35Run) handlerReady(sid string) *hstream {
 	}
 }
 
+// deliveredSoon gives a handler goroutine the server may have started for x-sid sid a short
+// grace period to register. Wall-clock time only raises the chance of noticing a delivery;
+// it can never produce a failure on its own.
+func (x *c35Run) deliveredSoon(sid string) bool {
+	for i := 0; i < 200; i++ {
+		if x.r.h.count(sid) > 0 {
+			return true
+		}
+		time.Sleep(100 * time.Microsecond)
+	}
+	return false
+}
+
+// execFinishRace: the client stops reading, the handler of the stream completes with a
+// response that does not fit the server's write buffer plus the (small) socket buffer, so
+// the server's frame write is stuck; the client then resets the stream, makes sure the
+// server has processed the RST_STREAM (a following PING has been read off the connection:
+// the server reads frame k+1 only after it processed frame k), resumes reading and checks
+// that the connection still works. All of it is legal client behaviour.
+func (x *c35Run) execFinishRace(st c35Step, target *c35Stream, mark int) bool {
+	hs := x.handlerReady(fmt.Sprint(st.SID))
+	if hs == nil {
+		target.handler = false
+		return true
+	}
+	x.classes["finish-race:"+st.Variant] = true
+	s2c, c2s := x.r.cconn.r, x.r.cconn.w
+	s2c.set(func() { s2c.paused = true })
+	hs.release <- hAction{Body: st.N}
+	// wait until the server's write is stuck (socket buffer full) or the handler is done
+	stuck := false
+	deadline := time.Now().Add(watchdog)
+	for {
+		full := false
+		s2c.set(func() { full = s2c.pending() >= s2c.capacity })
+		if full {
+			stuck = true
+			break
+		}
+		ret := false
+		x.r.h.mu.Lock()
+		ret = hs.returned
+		x.r.h.mu.Unlock()
+		if ret {
+			break
+		}
+		if time.Now().After(deadline) {
+			s2c.set(func() { s2c.paused = false })
+			x.rt.Skipf("C35: watchdog waiting for the stuck response write")
+		}
+		time.Sleep(50 * time.Microsecond)
+	}
+	if stuck {
+		x.classes["finish-race:write-stuck"] = true
+	}
+	x.r.cli.write(rawFrame(fRST, 0, st.SID, u32(0x8)))
+	x.r.cli.pingSeq++
+	x.r.cli.write(rawFrame(fPing, 0, 0, append(u32(0xC35A0000), u32(uint32(x.r.cli.pingSeq))...)))
+	var want int64
+	c2s.set(func() { want = c2s.written })
+	if !c2s.waitFor(func() bool { return c2s.consumed >= want || c2s.rclosed }, watchdog) {
+		s2c.set(func() { s2c.paused = false })
+		x.rt.Skipf("C35: watchdog waiting for the server to read RST_STREAM+PING")
+	}
+	if target.state != mClosed {
+		target.endedBy = "client-rst"
+	}
+	target.state = mClosed
+	target.cliRST = true
+	target.handler = false
+	s2c.set(func() { s2c.paused = false })
+	if !x.sync {
+		return true
+	}
+	b := x.r.cli.barrier()
+	if b == bTimeout {
+		x.rt.Skipf("C35: watchdog after finish-race")
+	}
+	if b != bAcked {
+		x.noteEnded(b)
+		x.fail("legal-rejected/finish-race", "connection ended (%v) after the client reset stream %d while its response (%d bytes) was being written to a stalled reader", b, st.SID, st.N)
+		return false
+	}
+	if !x.r.h.waitFor(func() bool { return hs.returned }) {
+		x.rt.Skipf("C35: watchdog waiting for handler return")
+	}
+	return true
+}
+
 // finishCase runs the end-of-case checks shared by sync and async cases.
 func (x *c35Run) finishCase() {
 	if x.failed {
@@ -966,10 +1134,10 @@ func (x *c35Run) finishCase() {
 			return
 		}
 	}
-	for _, sid := range x.forbid {
-		if x.r.h.count(sid) > 0 {
-			hs := x.r.h.get(sid)
-			x.fail("delivered/"+x.lastIllegal(), "request %q that must be rejected reached the handler (%s %s)", sid, hs.method, hs.path)
+	for _, fb := range x.forbid {
+		if x.r.h.count(fb.xsid) > 0 {
+			hs := x.r.h.get(fb.xsid)
+			x.fail("delivered/"+fb.key, "request %q that must be rejected reached the handler (%s %s)", fb.xsid, hs.method, hs.path)
 			return
 		}
 	}
@@ -977,11 +1145,11 @@ func (x *c35Run) finishCase() {
 	if !x.r.finish() {
 		x.rt.Skipf("C35: teardown watchdog")
 	}
-	for _, sid := range x.forbid {
-		if x.r.h.count(sid) > 0 {
+	for _, fb := range x.forbid {
+		if x.r.h.count(fb.xsid) > 0 {
 			x.rec.Case(x.fingerprint(), x.nt, keys(x.classes)...)
 			x.failed = true
-			x.rec.Fail(x.rt, "delivered/"+x.lastIllegal(), w, "request %q that must be rejected reached the handler", sid)
+			x.rec.Fail(x.rt, "delivered/"+fb.key, w, "request %q that must be rejected reached the handler", fb.xsid)
 			return
 		}
 	}
@@ -1009,7 +1177,8 @@ func TestC35(t *testing.T) {
 			maxStreams = 2
 		}
 		syncMode := rapid.IntRange(0, 3).Draw(rt, "sync") != 0
-		r, err := startRig(rigOpts{MaxStreams: maxStreams})
+		s2cCap := rapid.SampledFrom([]int{1 << 16, 1 << 16, 512, 16}).Draw(rt, "s2cBuffer")
+		r, err := startRig(rigOpts{MaxStreams: maxStreams, S2CCap: s2cCap})
 		if err != nil {
 			rt.Skipf("C35: %v", err)
 		}
@@ -1022,7 +1191,8 @@ func TestC35(t *testing.T) {
 			x.classes["schedule:async"] = true
 		}
 		x.classes[fmt.Sprintf("max-streams:%d", r.advMax)] = true
-		g := &c35Gen{rt: rt, m: m}
+		g := &c35Gen{rt: rt, m: m, s2cCap: s2cCap}
+		x.classes[fmt.Sprintf("s2c-buffer:%d", s2cCap)] = true
 		nPrefix := rapid.IntRange(0, 8).Draw(rt, "prefix")
 		for i := 0; i < nPrefix; i++ {
 			if !x.exec(*g.legal()) {
@@ -1047,6 +1217,22 @@ func TestC35(t *testing.T) {
 				if !x.exec(g.illegal(kind)) {
 					x.finishCase()
 					return
+				}
+				// a second illegal step that needs no set-up, e.g. re-using the id of a request the
+				// server has just rejected
+				if rapid.Bool().Draw(rt, "second") {
+					var app []string
+					for _, k2 := range []string{"X-headers-closed", "X-lower-idle-id", "X-data-closed", "X-even-id", "X-data-idle"} {
+						if k2 == "X-even-id" || k2 == "X-data-idle" || (len(m.pick(func(s *c35Stream) bool { return s.state == mClosed })) > 0 && k2 != "X-lower-idle-id") || (k2 == "X-lower-idle-id" && len(m.skipped) > 0) {
+							app = append(app, k2)
+						}
+					}
+					k2 := rapid.SampledFrom(app).Draw(rt, "illegal2")
+					x.classes["second-illegal"] = true
+					if !x.exec(g.illegal(k2)) {
+						x.finishCase()
+						return
+					}
 				}
 				nPost := rapid.IntRange(0, 3).Draw(rt, "post")
 				for i := 0; i < nPost; i++ {
